@@ -452,18 +452,6 @@ def _qname_atoms(v):
             yield x["q"]
 
 
-def p_default_attr(a):
-    d = user_map(a["ns_map"]).get(None)
-    if not d:
-        return False
-    for e in a["events"]:
-        if e[0] == "attr":
-            c = S.clark(e[1])
-            if c and c[0] == d:
-                return True
-    return False
-
-
 def p_reserved_prefix(a):
     for p, u in user_map(a["ns_map"]).items():
         if p is not None and (p in ("xml", "xmlns") or not S.is_ncname(p)):
@@ -527,7 +515,6 @@ def p_qname_default_reset(a):
 
 # id -> (predicate, {writer: kinds})
 KNOWN = {
-    "c03-default-ns-attribute": (p_default_attr, {"native": ("infoset", "not-wf", "leak:KeyError")}),
     "c03-qname-default-reset": (p_qname_default_reset, {"native": ("infoset",), "lxml": ("infoset",)}),
     "c03-reserved-prefix": (p_reserved_prefix, {"native": ("not-wf", "infoset"), "lxml": ("leak:ValueError", "not-wf", "infoset")}),
     "c03-nonxml-chars": (p_nonxml_chars, {"native": ("not-wf",), "lxml": ("leak:ValueError",)}),
@@ -611,13 +598,6 @@ def _tree(text):
         return None
 
 
-def f_default_attr():
-    out = _render(RootA(x="1"), {"": "urn:a"})
-    t = _tree(out)
-    bad = t is not None and [a[0] for a in t[3]] == [None]
-    return bool(bad), "render(R{urn:a} with @{urn:a}x, ns_map={'':'urn:a'}) -> %s" % out
-
-
 def f_reserved_prefix():
     outs = [_render(RootA(), {p: "urn:a"}) for p in ("xml", "xmlns", "a b")]
     bad = all(S.parse_infoset(o) is None for o in outs)
@@ -683,7 +663,6 @@ def f_qname_default():
 
 
 FINDINGS = {
-    "c03-default-ns-attribute": f_default_attr,
     "c03-reserved-prefix": f_reserved_prefix,
     "c03-nonxml-chars": f_nonxml_chars,
     "c03-qname-late-prefix": f_qname_late,
